@@ -265,6 +265,10 @@ def watch_mobility(w1, tags, key="degenerate_mobility", limit=1e12):
                     lo, hi = np.abs(fw).min(), np.abs(fw).max()
                     ratio = float(hi / lo) if lo > 0 and np.isfinite(hi) else 1e300
                 tags["mobility_contrast"] = max(tags.get("mobility_contrast", 1.0), ratio)
+                if ratio > 1e9:
+                    # the same situation seen scale-free: a face whose flux is 1e-9 of the others' is at
+                    # the noise level of the linear solves that produced it
+                    tags[key] = True
         except Exception:  # noqa
             pass
         return out
